@@ -81,6 +81,20 @@ DeriveFlags(c) ==
 FlagsOf(a) == [ breeze_away |-> a.breeze_away, breeze_mild |-> a.breeze_mild, breezeless |-> a.breezeless, ieco |-> a.ieco, v_angle |-> a.v_angle,
                 h_angle |-> a.h_angle, self_clean |-> a.self_clean, eco |-> a.eco, turbo |-> a.turbo, freeze |-> a.freeze, display |-> a.display,
                 filter |-> a.filter, purifier |-> a.purifier, custom_fan |-> a.custom_fan, humidity |-> a.humidity, target_humidity |-> a.target_humidity ]
+(* ... and the set-valued attributes (enum values as in device.py: OperationalMode, SwingMode, FanSpeed, AuxHeatMode) *)
+FanKeys == {"fan_silent", "fan_low", "fan_medium", "fan_high", "fan_auto", "fan_custom"}
+FanHas(c, sp) == IF DOMAIN c \cap FanKeys # {} THEN Has(c, "fan_" \o sp) \/ Has(c, "fan_custom")       \* any fan record present: only what is announced (custom = every speed)
+                 ELSE sp \in {"low", "medium", "high", "auto"}                                      \* no fan record at all: the default set
+If(b, S) == IF b THEN S ELSE {}
+DeriveSets(c) ==
+  [ op_modes |-> {5} \cup If(Has(c, "dry_mode"), {3}) \cup If(Has(c, "cool_mode"), {2}) \cup If(Has(c, "heat_mode"), {4}) \cup If(Has(c, "auto_mode"), {1})
+                 \cup If(Has(c, "humidity_manual_set"), {6}),
+    swing_modes |-> {0} \cup If(Has(c, "swing_horizontal"), {3}) \cup If(Has(c, "swing_vertical"), {12}) \cup If(Has(c, "swing_horizontal") /\ Has(c, "swing_vertical"), {15}),
+    fan_speeds |-> If(FanHas(c, "silent"), {20}) \cup If(FanHas(c, "low"), {40}) \cup If(FanHas(c, "medium"), {60}) \cup If(FanHas(c, "high"), {80})
+                   \cup If(FanHas(c, "auto"), {102}) \cup If(Has(c, "fan_custom"), {100}),
+    aux_modes |-> {0} \cup If(Has(c, "aux_electric_heat") \/ Has(c, "aux_heat_mode"), {1}) \cup If(Has(c, "aux_mode"), {2}) ]       \* each announcement counts on its own
+SeqSet(q) == {q[j] : j \in 1..Len(q)}
+SetsOf(a) == [ op_modes |-> SeqSet(a.op_modes), swing_modes |-> SeqSet(a.swing_modes), fan_speeds |-> SeqSet(a.fan_speeds), aux_modes |-> SeqSet(a.aux_modes) ]
 RECURSIVE InterpAll(_)
 InterpAll(rs) == IF rs = <<>> THEN <<>> ELSE <<Interp(Head(rs))>> \o InterpAll(Tail(rs))
 ParseCaps(p) == MergeAll(InterpAll(RecordsOf(p)))
